@@ -126,6 +126,17 @@ def suites(tier, seed):
         for proto in ("v1", "auto"):
             cases.append({"kind": "cnf", "cnf": cnf, "text": parts, "protocol": proto})
             cases.append({"kind": "cnf", "cnf": cnf, "text": " ".join(parts), "protocol": proto})
+        if any(len(g) > 1 for g in cnf) and len(cases) % 3 == 0:
+            # blanks around the commas of an argument (only possible in the argument-list form) do not change its meaning
+            seps = [",", ", ", " ,", " , ", ",  "]
+            spaced = []
+            for grp in cnf:
+                t = render_alt(grp[0])
+                for a in grp[1:]:
+                    t += seps[(len(cases) + len(t)) % len(seps)] + render_alt(a)
+                spaced.append((" " if len(t) % 2 else "") + t + (" " if len(t) % 3 == 0 else ""))
+            for proto in ("v1", "auto"):
+                cases.append({"kind": "cnf", "cnf": cnf, "text": spaced, "protocol": proto})
     alts = [(neg, t, d, None) for t in TAGS[:3] for neg in (False, True) for d in (decos if neg else [("", False), ("", True)])]
     small = [[list(g)] for n in (1, 2) for g in itertools.product(alts, repeat=n)]
     if not thorough:
